@@ -768,8 +768,9 @@ def panic_freedom(prog, rep):
                 if p.endswith("core::ops::index::Index<&'n str>>::index"):
                     self.visited_sites.add(self.site(st))
                     return self.fresh(st, self.dest_ty(st, term), "group")  # discharged by regex-groups
-                if p.startswith("<") and "::PARTS as core::ops::deref::Deref>::deref" in p:
-                    return self.fresh(st, self.dest_ty(st, term), "regex")  # lazy static regex, see `accepted`
+                if callee["name"] in ("deref", "get_or_init", "force") and "regex::regex::string::Regex" in (self.dest_ty(st, term) or ""):
+                    # a once-initialised static regex (lazy_static!, LazyLock, OnceLock) under any name, see `accepted`
+                    return self.fresh(st, self.dest_ty(st, term), "regex")
                 return tt.TotalWorld.call(self, m, st, callee, args, term)
 
         w = W(prog, set(roots), r)
